@@ -278,6 +278,10 @@ class Pki:
                 odd = tlvref.tlv(2, bytes(32)) if spec['odd_locator'] == 'params-digest' else tlvref.tlv(0, b'x')
                 locator = list(locator[:-1]) + [odd, locator[-1]] if spec.get('odd_at') == 'mid' else list(locator) + [odd]
             signer = mk_signer(self.keys[sb], locator)
+            if spec.get('type_mismatch'):
+                # signed by somebody else's key of ANOTHER type, naming the genuine (retrievable, valid) certificate: the
+                # certificate's key bits are not a key of the type the signature claims
+                signer = mk_signer(['rsa', 5] if self.keys[sb][0] != 'rsa' else ['ec', 9], locator)
             if spec.get('hmac_forgery'):
                 # anybody who has seen the certificate can do this: HMAC keyed with the certificate's PUBLIC key bits,
                 # naming that (genuine, retrievable) certificate as key locator
@@ -832,6 +836,8 @@ def generate(rng, seed, tier='quick'):
                 pkt['hmac_forgery'] = True
             elif z < 0.33:
                 pkt['empty_name'] = True
+            elif z < 0.35:
+                pkt['type_mismatch'] = True
             elif z < 0.38:
                 pkt['odd_locator'] = rng.choice(['params-digest', 'type0'])
                 pkt['odd_at'] = rng.choice(['end', 'mid'])
